@@ -1177,3 +1177,118 @@ func (c *Check) passiveOption(rule string) {
 		c.require(ok, rule, "WithPassive", "sets passive", p.Pos(fn.Pos()), "the option WithPassive returns sets peerOptions.passive to true")
 	}
 }
+
+// noWaitUnderLock: Server.mu is not held while waiting for goroutines that
+// themselves take Server.mu (the accept loops, through handleInboundConn):
+// whoever holds the lock waits for a goroutine that waits for the lock.
+func (c *Check) noWaitUnderLock(rule string) {
+	p := c.P
+	// goroutines that signal a WaitGroup and may lock Server.mu
+	locksMu := func(f *ssa.Function) bool {
+		hit := false
+		for g := range p.reach(f) {
+			ownInstrs(g, func(in ssa.Instruction) {
+				cl, ok := in.(*ssa.Call)
+				if !ok || p.calleeDesc(cl) != "sync.Mutex.Lock" || len(cl.Call.Args) == 0 {
+					return
+				}
+				if fa, ok := cl.Call.Args[0].(*ssa.FieldAddr); ok && structFieldName(fa) == "mu" && structNameOfPtr(fa.X.Type()) == "Server" {
+					hit = true
+				}
+			})
+		}
+		return hit
+	}
+	var waiters []*ssa.Function
+	for _, s := range p.spawns() {
+		if s.Target == nil {
+			continue
+		}
+		signals := len(p.callsDeep(s.Target, descIs("sync.WaitGroup.Done"))) > 0
+		if !signals {
+			for _, g := range withAnon(s.Target) {
+				ownInstrs(g, func(in ssa.Instruction) {
+					if d, ok := in.(*ssa.Defer); ok && p.calleeDesc(d) == "sync.WaitGroup.Done" {
+						signals = true
+					}
+				})
+			}
+		}
+		if signals && locksMu(s.Target) {
+			waiters = append(waiters, s.Target)
+		}
+	}
+	n := 0
+	for _, fn := range p.FuncSeq {
+		waits := p.callsIn(fn, descIs("sync.WaitGroup.Wait"))
+		if len(waits) == 0 {
+			continue
+		}
+		held := p.lockHeld(fn, "mu")
+		if par := p.enteredOnlyThroughHelper(fn); par != nil {
+			held = p.lockHeld(par, "mu")
+		}
+		for _, w := range waits {
+			n++
+			c.require(!(held[w.(ssa.Instruction)] && len(waiters) > 0), rule, p.Name(fn), "WaitGroup.Wait", p.InstrPos(w.(ssa.Instruction)),
+				"Server.mu is not held while waiting for goroutines that take Server.mu themselves (accept loops call handleInboundConn): that wait can never end")
+		}
+	}
+	c.floor(rule, n, 1, "WaitGroup.Wait sites")
+}
+
+// restartAfterHandler: in Established the hold timer is restarted after the
+// UPDATE handler has returned, never before it: time spent in the handler is
+// not silence of the peer (a restart before a slow handler leaves an expired
+// timer pending beside the next queued message).
+func (c *Check) restartAfterHandler(rule string) {
+	p := c.P
+	fn := p.Fn("fsm.established")
+	if fn == nil {
+		return
+	}
+	cl := p.closureWithCall(fn, descIs("invoke:Plugin.OnEstablished"))
+	if cl == nil {
+		c.undecided(rule, "fsm.established", "session loop", p.Pos(fn.Pos()), "no closure calling OnEstablished")
+		return
+	}
+	var handlerCalls []ssa.Instruction
+	allInstrs(cl, func(in ssa.Instruction) {
+		if ci, ok := in.(*ssa.Call); ok && strings.HasPrefix(p.calleeDesc(ci), "dyn:UpdateMessageHandler") {
+			handlerCalls = append(handlerCalls, in)
+		}
+	})
+	n := 0
+	for _, r := range p.callsIn(cl, func(d string) bool { return d == "fsm.drainAndResetHoldTimer" || d == "time.Timer.Reset" }) {
+		ri := r.(ssa.Instruction)
+		if p.calleeDesc(r) == "time.Timer.Reset" {
+			// only resets of the hold timer
+			isHold := false
+			for _, arg := range r.Common().Args {
+				if ld, ok := arg.(*ssa.UnOp); ok {
+					if fa, ok := ld.X.(*ssa.FieldAddr); ok && structFieldName(fa) == "holdTimer" {
+						isHold = true
+					}
+				}
+			}
+			if !isHold {
+				continue
+			}
+		}
+		n++
+		hit := pathSearch(cl, ri, func(x ssa.Instruction) bool {
+			for _, h := range handlerCalls {
+				if x == h {
+					return true
+				}
+			}
+			return false
+		}, func(x ssa.Instruction) bool {
+			_, isSel := x.(*ssa.Select)
+			return isSel
+		})
+		c.require(hit == nil, rule, p.Name(cl), "hold timer restart", p.InstrPos(ri),
+			"no UPDATE handler call follows a hold-timer restart before the next select: the timer is restarted when the handler has returned")
+	}
+	c.floor(rule, n, 1, "hold-timer restarts in the session loop")
+}
